@@ -517,7 +517,7 @@ def legs(tier):
     out.append(Leg('single_py', fn_single, [['py', N, i] for N in Ns for i in range(4 ** N)], chunk=32,
                    src_states=sum(4 * 4 ** N for N in Ns),
                    bound='pyclifford N in %s: all 4^N letter strings x 4 phases x every description format, repr, tokens, N, weight, unit scalars' % (Ns,)))
-    lspec = [(1, 0), (1, 1), (1, 2), (1, 3), (2, 0), (2, 1), (2, 2)] + ([] if quick else [(3, 1), (3, 2)])
+    lspec = [(1, 0), (1, 1), (1, 2), (1, 3), (2, 0), (2, 1), (2, 2), (3, 1)] + ([] if quick else [(3, 2)])
     items = []
     nlists = 0
     for N, L in lspec:
@@ -531,7 +531,7 @@ def legs(tier):
     tNs = (1, 2) if quick else (1, 2, 3)
     out.append(Leg('single_torch', fn_single, [['torch', N, i] for N in tNs for i in range(4 ** N)], chunk=2,
                    src_states=sum(4 * 4 ** N for N in tNs), bound='torchclifford N in %s: as single_py (+ tensor inputs)' % (tNs,)))
-    tl = [(1, 0), (1, 1), (1, 2), (2, 0), (2, 1)] + ([] if quick else [(2, 2), (1, 3)])
+    tl = [(1, 0), (1, 1), (1, 2), (2, 0), (2, 1), (2, 2)] + ([] if quick else [(1, 3), (3, 1)])
     titems = []
     for N, L in tl:
         M = 4 * 4 ** N
